@@ -24,6 +24,8 @@ let handle (line : string) : string =
       let o = z_of_int (int_of_string op) in
       let incl = (cmd = "mutatek" || cmd = "mutate1k") in
       string_of_bytes ((if cmd = "mutate" || cmd = "mutatek" then model_mutate else model_mutate_one) incl o x d v)
+  | ["jpstr"; hex; delim] ->
+      string_of_bytes (model_jpstr (bytes_of_hex hex) (List.hd (bytes_of_hex delim)))
   | ["match"; eq; data] ->
       let e = parse_eqn { s = eq; i = 0 } in
       let d = parse_jv { s = data; i = 0 } in
